@@ -326,6 +326,48 @@ def directed_path_purity(ctx):
                 pass
 
 
+def directed_scale_purity(ctx):
+    """wide and deep schemas (20 keys, 20 elements, 12 alternatives, nesting 6) through every public operation: the operands
+    and an independently built twin stay observably the same (a fast path for big schemas that patches shared state shows here)"""
+    def wide_dict():
+        return schema.dict({(optional("k%02d" % i) if i % 3 == 0 else "k%02d" % i): (schema.int if i % 2 else schema.str) for i in range(20)})
+
+    def wide_list():
+        return schema.list([schema.int if i % 2 else schema.str for i in range(20)])
+
+    def wide_any():
+        return schema.any(*[schema.int(i) for i in range(6)], *[schema.str.len(i) for i in range(6)])
+
+    def deep6():
+        s = schema.int.min(0)
+        for i in range(6):
+            s = schema.dict({"d": s, optional("o"): schema.int}) if i % 2 else schema.list([schema.none, s, ...])
+        return s
+    makers = [wide_dict, wide_list, wide_any, deep6]
+    ops = [("make_required few", lambda s: make_required(s, ["k00", "k03"])), ("make_required one", lambda s: make_required(s, ["k06"])),
+           ("make_required all", lambda s: make_required(s)), ("+ small", lambda s: s + schema.dict({"k01": schema.none, "zz": schema.int})),
+           ("+ wide", lambda s: s + wide_dict()), ("% partial", lambda s: substitute(s, {"k01": 5, "k02": "x"})),
+           ("% list", lambda s: substitute(s, [("s" if i % 2 == 0 else i) for i in range(20)])), ("% 3", lambda s: substitute(s, 3)),
+           ("| none", lambda s: s | schema.none), ("| self", lambda s: s | s), ("getitem", lambda s: s["k03"]), ("iterate", lambda s: list(s)),
+           ("repr", lambda s: repr(s)), ("validate", lambda s: validate(s, {"k01": 1})), ("fake", lambda s: SR.generate(s, SR.make_policy("lo", ctx.rnd))),
+           ("% deep", lambda s: substitute(s, [None, {"d": [None, {"d": [None, {"d": 1}]}]}]))]
+    for mk in makers:
+        for name, op in ops:
+            s, twin = mk(), mk()
+            before = observe(s)
+            for _ in range(3):          # the third time counts too
+                try:
+                    op(s)
+                except Exception:  # noqa: BLE001
+                    pass
+            ctx.count("directed_scale_purity_cases")
+            if observe(s) != before:
+                ctx.violation("an existing schema changed its observable behaviour", step=name, history=[mk.__name__, name],
+                              before=repr(before)[:500], after=repr(observe(s))[:500])
+            elif observe(twin) != before:
+                ctx.violation("an independently built equal schema changed its observable behaviour", step=name, maker=mk.__name__)
+
+
 def order_independence(ctx):
     """results do not depend on what was executed before: the same value-only operations are evaluated here in one order and
     in a fresh interpreter in the reverse order (a cache or any other state shared between calls shows up as a difference)"""
@@ -477,6 +519,7 @@ def run(ctx):
     directed_value_purity(ctx)
     directed_lookup_purity(ctx)
     directed_path_purity(ctx)
+    directed_scale_purity(ctx)
     order_independence(ctx)
     steps = ctx.n(30, 100)
     for h in range(ctx.n(25, 80)):
